@@ -3,6 +3,7 @@ import AcraModel.CrossClient.Hash
 import AcraModel.CrossClient.Context
 import AcraModel.CrossClient.Token
 import AcraModel.CrossClient.Tls
+import AcraModel.CrossClient.Keys
 import AcraModel.Crypto.Shim
 import Driver.C01
 /-! Driver ops for C02: every reveal-type entry point run under a chosen identity of a key store with
@@ -164,6 +165,17 @@ def handle (op : String) (args : List String) : Option String :=
       let (st, toks) := runTokCollect [] ops
       let d := detokenize C st (← ofHex qid) (← ofHex qtok) (← qty.toNat?)
       pure s!"{if toks.isEmpty then "_" else ",".intercalate toks} {outHex d}"
+  -- keys.view handle what id n (owner key)×n : the keys of `id` in a generation history (newest first)
+  | "keys.view", _ :: _ :: id :: n :: rest => do
+      let n ← n.toNat?
+      if rest.length ≠ 2 * n then none
+      let rec go : List String → Option History
+        | o :: k :: t => do pure (⟨← ofHex o, ← ofHex k⟩ :: (← go t))
+        | [] => some []
+        | _ => none
+      let h ← go rest
+      let ks := keysOf h (← ofHex id)
+      pure (if ks.isEmpty then "_" else ",".intercalate (ks.map hexOf))
   | "ctx.v1.open", [master, purpose, id, blob] => do
       pure (optOut (keyDecrypt C (← ofHex master) (v1Context (← parsePurpose purpose) (← ofHex id)) (← ofHex blob)))
   | "ctx.v1.name", [purpose, id] => do
